@@ -232,6 +232,34 @@ func checkWalkComplete(c *core.Ctx, l *core.Ledger) {
 			why = append(why, "a nil child is passed to the visitor")
 		}
 	}
+	// the visitor returned for a node applies to that node's children only: visit may replace the visitor in its
+	// own copy, never in a cell its caller (the parent's visitChildren, which goes on to the siblings) also reads
+	core.Instrs(vf, func(in ssa.Instruction) {
+		st, ok := in.(*ssa.Store)
+		if !ok {
+			return
+		}
+		if _, isI := st.Val.Type().Underlying().(*types.Interface); !isI {
+			return
+		}
+		root := st.Addr
+		for {
+			if fa, isFA := root.(*ssa.FieldAddr); isFA {
+				root = fa.X
+				continue
+			}
+			if ia, isIA := root.(*ssa.IndexAddr); isIA {
+				if _, isArr := ia.X.Type().Underlying().(*types.Pointer); isArr {
+					root = ia.X // element of a local array (variadic argument list)
+					continue
+				}
+			}
+			break
+		}
+		if _, isLocal := root.(*ssa.Alloc); !isLocal {
+			why = append(why, "the visitor chosen for one node is stored outside visit's own copy ("+c.Rel(st.Pos())+": "+core.Sym(st.Addr)+") and so replaces the visitor of the node's following siblings")
+		}
+	})
 	l.Check(len(why) == 0, "VISIT", "visitor.visit", c.Rel(vf.Pos()), "nil skipped; visitor asked with the ancestor stack; node pushed; children visited with the extended stack", strings.Join(why, "; "))
 	if wf := c.SSAFunc(c.LookupFunc("ast", "Walk")); wf != nil {
 		vs := callsIn(wf, "visit")
